@@ -1,9 +1,6 @@
 <%!
     from floogen.model.routing import XYDirections, RouteAlgo
-    from floogen.utils import clog2
-%>\
-<% def camelcase(s):
-  return ''.join(x.capitalize() or '_' for x in s.split('_'))
+    from floogen.utils import clog2, snake_to_camel
 %>\
 <% offset_xy_id = router.id - network.routing.xy_id_offset if network.routing.xy_id_offset is not None else router.id %>\
 <% req_type = next(d for d in router.incoming if d is not None).req_type %>\
@@ -94,7 +91,7 @@ floo_nw_router #(
   .id_i ('0),
 % endif
 % if router.route_algo == RouteAlgo.ID:
-  .id_route_map_i (${camelcase(router.name + "_map")}),
+  .id_route_map_i (${snake_to_camel(router.name + "_map")}),
 % else:
   .id_route_map_i ('0),
 % endif
